@@ -110,16 +110,24 @@ func (ms *metaStore) metaPath(bucket string, object string) metaPath {
 const stagedSuffix = ".staged"
 
 // readMeta reads a metadata file; ok is false if it does not exist or cannot
-// be understood (a write that was interrupted, for example).
-func (ms *metaStore) readMeta(fullPath string) (meta Metadata, ok bool) {
+// be understood (a write that was interrupted, for example). A file that is
+// there but cannot be read is an error: treating it as missing would make
+// loadMeta replace the object's metadata with an empty record.
+func (ms *metaStore) readMeta(fullPath string) (meta Metadata, ok bool, err error) {
 	bts, err := afero.ReadFile(ms.fs, fullPath)
-	if err != nil || len(bts) == 0 {
-		return meta, false
+	if err != nil {
+		if isNotExist(err) {
+			return meta, false, nil
+		}
+		return meta, false, err
+	}
+	if len(bts) == 0 {
+		return meta, false, nil
 	}
 	if err := json.Unmarshal(bts, &meta); err != nil {
-		return Metadata{}, false
+		return Metadata{}, false, nil
 	}
-	return meta.loaded(), true
+	return meta.loaded(), true, nil
 }
 
 // describes reports whether the metadata was recorded for a file with this
@@ -140,7 +148,10 @@ func (ms *metaStore) loadMeta(bucket string, object string, size int64, mtime ti
 	metaPath := ms.metaPath(bucket, object)
 	fullPath := metaPath.FilePath()
 
-	meta, _ := ms.readMeta(fullPath)
+	meta, _, err := ms.readMeta(fullPath)
+	if err != nil {
+		return nil, err
+	}
 	current, err := ms.describes(&meta, size, mtime)
 	if err != nil {
 		return nil, err
@@ -149,7 +160,9 @@ func (ms *metaStore) loadMeta(bucket string, object string, size int64, mtime ti
 	if !current {
 		// An upload that was interrupted after the object had been moved into
 		// place, but before its metadata was committed, left it staged:
-		if staged, ok := ms.readMeta(fullPath + stagedSuffix); ok {
+		if staged, ok, err := ms.readMeta(fullPath + stagedSuffix); err != nil {
+			return nil, err
+		} else if ok {
 			if matches, err := ms.describes(&staged, size, mtime); err != nil {
 				return nil, err
 			} else if matches {
